@@ -232,7 +232,7 @@ namespace AIToolbox::POMDP {
 
         // Cache immediate rewards if we can't read the reward function directly.
         if constexpr (!MDP::IsModelEigen<M>)
-            immediateRewards_ = computeImmediateRewards(pomdp);
+            immediateRewards_ = MDP::computeImmediateRewards(pomdp);
 
         // Reset tolerance to set parameter;
         tolerance_ = initialTolerance_;
